@@ -95,7 +95,7 @@ Lemma transit_taken t ns far w w' :
   forallb (eval_need P t w) ns = true /\
   let '(ex, en, re) := ExEn P t (actives (gett w t)) far in
   framer_checkEnter P sub t en ex w = true /\
-  w' = guard (framer_enter P sub t en (framer_renter P sub t re (framer_rexit P sub t re (framer_exit P sub t ex w))))
+  w' = guard (framer_enter P sub t en (framer_renter P sub t re (framer_rexit P sub t re (framer_exit P sub t ex (run_acts P sub t (tracts_of ns) w)))))
              (activate P t far).
 Proof.
   unfold transit. intros H.
